@@ -242,7 +242,13 @@ class FitAnalysis:
         self.events = self.res.events
 
     def policy(self, kind, name, target, fr):
-        return kind == "method" and name == "_run_search"
+        # _run_search and any other helper method of the tuner module (e.g. a closure lifted to ``self._fit_and_score``) are
+        # followed with bound parameters exactly like the closures; public API members and the guard stay symbolic
+        if kind != "method":
+            return False
+        k, _f = target
+        return name == "_run_search" or (k.module.relpath == TUNE and name not in DESIGNED_MEMBERS
+                                         and name not in ("fit", "check_is_fitted", "__init__"))
 
     def strips_to(self, t, core):
         return self.V.strip(t) == core
